@@ -1034,6 +1034,7 @@ func TestC15_Regress(t *testing.T) {
 	// objects and were missing from the catching-up class
 	if e.ncu != nil {
 		const id2 = "follower-not-caught-up-serves-test"
+		reportedTest := false
 		for _, base := range [][]string{
 			{"TEST", "GET", "cnrK1", "cnrIa", "INTERSECTS", "CLIP", "BOUNDS", "-90", "-180", "90", "180"},
 			{"TEST", "GET", "cnrK1", "cnrIa", "WITHIN", "BOUNDS", "-90", "-180", "90", "180"},
@@ -1056,8 +1057,12 @@ func TestC15_Regress(t *testing.T) {
 					if ev.KnownActive(id2) {
 						c.Known(id2, what)
 					} else {
-						c.Violation(id2, what, cellReplay{Mode: "follower-never-caught-up", Variant: string(v), Cmd: strings.ToLower(base[0]), Args: base})
-						t.Errorf("VIOLATION-CANDIDATE key=%s: %s", id2, what)
+						if !reportedTest {
+							reportedTest = true
+							c.Violation(id2, what, cellReplay{Mode: "follower-never-caught-up", Variant: string(v), Cmd: strings.ToLower(base[0]), Args: base})
+							t.Errorf("VIOLATION-CANDIDATE key=%s: %s", id2, what)
+						}
+						c.Label("probe-failed:" + strings.ToLower(base[0]) + "/" + string(v))
 					}
 				}
 			}
